@@ -75,6 +75,7 @@ type doOut struct {
 	State string
 	Data  string
 	Dump  string
+	Raw   []byte // the dump exactly as handed out (same backing array), for the stability check
 }
 
 func safeDo(inst *state_machines.FSMInstance, ev string, req interface{}) (o doOut) {
@@ -91,6 +92,7 @@ func safeDo(inst *state_machines.FSMInstance, ev string, req interface{}) (o doO
 	o.State = string(resp.State)
 	o.Data = canonJSON(resp.Data)
 	o.Dump = string(dump)
+	o.Raw = dump
 	return
 }
 
@@ -258,17 +260,38 @@ func fsmPairedExplore(c *Ctx, n, t int, maxStates int) (states, pairs int) {
 				if len(chain) > 1 {
 					instL, err := safeFromDump(x.dump)
 					okPath := err == nil
+					type held struct {
+						raw  []byte
+						copy string
+						at   string
+					}
+					var handed []held
+					stable := func(after string) {
+						for _, h := range handed {
+							if string(h.raw) != h.copy {
+								c.Violate("C19/saved-round-changed-afterwards", fmt.Sprintf("the dump handed out after %s (what a caller persists) no longer holds the same bytes once the same instance has handled %s", h.at, after), map[string]interface{}{"n": n, "t": t, "path": path(s), "dump_taken_after": h.at, "changed_by": after})
+								handed = nil
+								return
+							}
+						}
+					}
 					for _, y := range chain {
 						if !okPath {
 							break
 						}
-						if pre := safeDo(instL, y.via.event, y.via.req); !pre.OK {
+						pre := safeDo(instL, y.via.event, y.via.req)
+						stable(y.via.label)
+						if pre.OK && pre.Raw != nil {
+							handed = append(handed, held{pre.Raw, string(pre.Raw), y.via.label})
+						}
+						if !pre.OK {
 							okPath = false
 							c.Violate("C19/live-and-restored-differ", fmt.Sprintf("the path to %s is accepted step by step on restored instances but step %s is refused on one long-lived instance", s.name, y.via.label), map[string]interface{}{"n": n, "t": t, "path": path(s)})
 						}
 					}
 					if okPath {
 						outL := safeDo(instL, e.event, e.req)
+						stable(e.label)
 						longPairs++
 						if outL.OK != outB.OK || outL.State != outB.State || outL.Data != outB.Data || canonDump(outL.Dump) != canonDump(outB.Dump) {
 							what := fmt.Sprintf("in %s event %s: long-lived instance (%d steps in memory) (ok=%v,state=%s) vs restored(ok=%v,state=%s)", s.name, e.label, len(chain), outL.OK, outL.State, outB.OK, outB.State)
@@ -301,7 +324,7 @@ func fsmPairedExplore(c *Ctx, n, t int, maxStates int) (states, pairs int) {
 }
 
 func checkC19(c *Ctx) {
-	c.Rule = "two explorations. (1) state_machines driven directly (Create/Do/Dump/FromDump) breadth-first over the full event alphabet incl. the hand-over events and two signing batches: for every reachable state and every event, continuing on the live instance is compared with continuing on an instance restored from the dump (acceptance, next state, response JSON, resulting dump); every reachable state must restore. (2) the C05 node-level exploration and the C06 signing exploration: every reachable persisted round must restore and the node's round listing must succeed on a store containing it. In (1) a second comparison keeps ONE instance alive through the whole path since the last hand-over (every accepted event, an eighth of the others). (r) an instance that lived through a rejected event must answer every accepted event like a restored one. distinct = distinct reachable states judged"
+	c.Rule = "two explorations. (1) state_machines driven directly (Create/Do/Dump/FromDump) breadth-first over the full event alphabet incl. the hand-over events and two signing batches: for every reachable state and every event, continuing on the live instance is compared with continuing on an instance restored from the dump (acceptance, next state, response JSON, resulting dump); every reachable state must restore. (2) the C05 node-level exploration and the C06 signing exploration: every reachable persisted round must restore and the node's round listing must succeed on a store containing it. In (1) a second comparison keeps ONE instance alive through the whole path since the last hand-over (every accepted event, an eighth of the others). (r) an instance that lived through a rejected event must answer every accepted event like a restored one. Dumps handed out by a long-lived instance are kept next to copies and must stay equal to them. distinct = distinct reachable states judged"
 	c.Assumptions = []string{"hand-over states (proposal collected, master key collected) are excluded from the live-vs-restored comparison only: the machine that reached them cannot continue by construction and the node always restores there", "responses built by iterating Go maps are compared as multisets"}
 	c.Exhaustive = true
 	type cfg struct{ n, t int }
